@@ -10,13 +10,15 @@ open PdsVerif.Model.Sphere
 
 inductive WErr where
   | io      -- IOError("Number of channels do not evenly divide wave samples")
-  | value   -- np.frombuffer: buffer size must be a multiple of element size / a width NumPy has no dtype for
+  | value   -- np.frombuffer: buffer size must be a multiple of element size
+  | type    -- `'<i3'`: NumPy has signed integer dtypes of 1, 2, 4 and 8 bytes only (TypeError)
   deriving DecidableEq, Repr
 
 /-- `_wave_read_signal`: `width = getsampwidth()`, `chans = getnchannels()` (≥ 1: `wave` rejects 0),
 `frames = readframes(getnframes())`.  Returns (shape, samples in C order). -/
 def waveRead (width chans : Nat) (frames : Bytes) : Except WErr (List Nat × List Int) :=
-  if width = 0 ∨ frames.length % width ≠ 0 then .error .value
+  if ¬ (width = 1 ∨ width = 2 ∨ width = 4 ∨ width = 8) then .error .type
+  else if frames.length % width ≠ 0 then .error .value
   else
     let n := frames.length / width
     let data := unpack width (decItem width true false) n frames
